@@ -206,6 +206,11 @@ def _m_mod2(v):
     return v % 2
 
 
+def _m_size(v):
+    # many-to-one on strings: "", "a", "b" -> "short"; None has no length (the query is false)
+    return "short" if len(v) <= 1 else "long"
+
+
 MAPS = {
     "ident": _m_ident,
     "neg": _m_neg,
@@ -218,6 +223,7 @@ MAPS = {
     "raise": _m_raise,
     "first": _m_first,
     "mod2": _m_mod2,
+    "size": _m_size,
 }
 
 # ---------------------------------------------------------------------------
